@@ -83,4 +83,15 @@ TrajBackOK == (Rec.op = "trajback" /\ ~Has("exc")) =>
     ELSE LET tb == TrajBack(TGrpK(Rec.pre), Prog, Rec.outs, Len(Prog), Len(Rec.outs)) IN
          IF tb.ok THEN ~Has("refused") /\ TOKK(Rec.post) /\ TGrpK(Rec.post) = tb.S
          ELSE Has("refused") /\ Rec.refused = "ValueError"
+\* ---- C14: post-selection of (-1)^b P on a pure state: Born probability returned, projected state left;
+\* impossible outcome: probability 0 and the state unchanged
+PostselectOK == (Rec.op = "postselect" /\ ~Has("exc")) =>
+    LET S0 == TGrpK(Rec.pre)  P == Dec(Rec.p)
+        Oo == IF Rec.b = 1 THEN Neg(P) ELSE P IN
+    IF Rec.pre.r # 0 THEN Has("refused") /\ Rec.refused = "ValueError"      \* pure states only (documented)
+    ELSE /\ ~Has("refused") /\ TOKK(Rec.post) /\ Rec.post.r = 0
+         /\ IF Oo \in S0 THEN Rec.prob = <<1, 0>> /\ TGrpK(Rec.post) = S0
+            ELSE IF Neg(Oo) \in S0 THEN Rec.prob = <<0, 0>> /\ TGrpK(Rec.post) = S0
+            ELSE /\ Rec.prob = <<1, 1>>
+                 /\ TGrpK(Rec.post) = SemMeasure(S0, P, Rec.b).S
 =============================================================================
